@@ -13,7 +13,7 @@ All theorems are about the model Ymq/Model/Gf2Small.lean (tied to the code by th
 -/
 import Ymq.Lemmas.Gf2SmallCallsite
 import Ymq.Lemmas.Gf2SmallInverse
-import Ymq.Lemmas.Gf2SmallLoopRun
+import Ymq.Lemmas.Gf2SmallThreeTerm
 import Ymq.Model.Gf2Genblock
 import Ymq.Props.C14
 
@@ -486,6 +486,29 @@ theorem lanczos_loop_no_panic_unpurged (k : Nat) (cols : List (List Nat)) (Y0 ay
       ¬ AllProjected st') := by
   obtain ⟨hay, hInv⟩ := lanczosInit_inv hM true hY0 h
   exact lanczosLoop_checked_unpurged hM hay (lanczosInit_wf hM true hY0 h).2 fuel st _ _ acc hInv hnone
+
+open Ymq.Gf2Lanczos Ymq.Gf2 in
+/-- Montgomery's THREE-TERM PROPERTY from the extended invariant. `VInv` adds the directions `V_m` to the
+ghost history: the recurrence `V_{j+1} = A·W_j + V_j + Σ_{l ≤ j} W_l c_l` read against blocks A-orthogonal to
+`W_0…W_j` (`recur`), "the vectors of `V_m` selected in one of the blocks `m…i-1` vanish against every block
+A-orthogonal to `W_0…W_{i-1}`" (`dd`, with `pc Ss m t = !S_m & … & !S_{t-1}`), `W_lᵗ A V_i = 0` for `l < i`
+(`vOrth`), and "a block no longer projected has `!S_{j+1} & … & !S_{i-1} = 0`" (`notProj`: the purge
+condition `mask == 0`). Under `LInv` and `VInv` the hypothesis `h3` of `lanczos_step_no_panic_checked`
+holds: every block no longer projected is A-orthogonal to the direction `A·W_i ^ V_i`; hence the checked
+step reaches no panic site (`lanczosStep_checked_of_VInv`).
+MISSING for the unconditional `lanczos_loop_no_panic` (checked profile beyond the first purge): that
+`lanczosStep` PRESERVES `VInv` (and its trivial base case). Exactly: (1) expose from the projection loop
+"`Q X next = Q X next0` for every `X` A-orthogonal to the whole history" (each projection adds `W_l·c`) —
+gives `recur` for `j = i` and `vOrth`; (2) `dd` for `i+1` from `dd` for `i` and the column identity
+`Q X V_{i+1}·(1 - P_{S_i}) = Q X V_i·(1 - P_{S_i})` (because `(A·W_i)·(1 - P_{S_i}) = 0`), with
+`pc Ss m (i+1) = pc Ss m i & !S_i`; (3) `maskFor masks j L = some (pc Ss (j+1) (L-1))` from
+`masks[l] = !S_l`, and "purged ⇒ `mask == 0` at purge time" recorded by the projection loop — gives `notProj`. -/
+theorem lanczos_three_term_of_extended_invariant (k : Nat) (cols : List (List Nat)) (Y0 : List Nat) (st : LState)
+    (hist vhist : List (List Nat)) (Ss : List Nat) (hM : MatOK k cols) (hInv : LInv k cols Y0 st hist Ss)
+    (hV : VInv k cols st hist vhist Ss) :
+    ∀ next0, Direction k cols st next0 → ∀ j, j < st.ws.length →
+      ¬ Projected st.ws st.masks st.ws.length j → Q k cols (hist.getD j []) next0 = 0 :=
+  three_term_of_VInv hM hInv hV
 
 /-! ### `kernel_lanczos` as one statement: initial block + main loop + final stage -/
 
